@@ -19,6 +19,9 @@ WRONG = {
     ('nonNegativeInteger', 'text'): 'x', ('nonNegativeInteger', 'negative'): '-1',
     ('positiveInteger', 'text'): 'x', ('positiveInteger', 'zero'): '0',
     ('unsignedShort', 'text'): 'x', ('unsignedShort', 'negative'): '-1', ('unsignedShort', 'toobig'): '70000',
+    ('unsignedByte', 'text'): 'x', ('unsignedByte', 'negative'): '-1', ('unsignedByte', 'toobig'): '256',
+    ('unsignedInt', 'text'): 'x', ('unsignedInt', 'negative'): '-1', ('unsignedInt', 'toobig'): '4294967296',
+    ('unsignedLong', 'text'): 'x', ('unsignedLong', 'negative'): '-1', ('unsignedLong', 'toobig'): '18446744073709551616',
     ('duration', 'text'): 'one hour',
 }
 TEXT = {'string': 'text', 'anyURI': 'urn:verif:text', 'base64Binary': 'YWJj', 'integer': '1', 'boolean': 'true', 'NCName': 'n',
@@ -72,6 +75,9 @@ def build(v):
         setattr(inst, v['which'], WRONG[(a['type'], v['how'])])
     elif kind == 'bad_enum':
         setattr(inst, v['which'], 'not-in-the-enumeration')
+    elif kind == 'bad_text':
+        base = 'dateTime' if t['text_base'] == 'datetime' else t['text_base']
+        inst.text = WRONG[(base, v['how'])]
     elif kind == 'bad_text_enum':
         inst.text = 'not-in-the-enumeration'
     return inst
